@@ -10,9 +10,11 @@
 //                               op    0 if_then_else, 1 if_cmp,
 //                                     3 if_then_else with the consumers inside a nested graph (nested_<>),
 //                                     5 as 3, but the REF itself crosses the boundary and is dereferenced inside,
+//                                     6 chained: if_then_else(c2, if_then_else(c1, A, B), C); c2 is source k=4,
+//                                     7 chained: if_cmp(cmp2, if_then_else(c1, A, B), C, C),
 //                                     4 if_then_else inside a nested graph, its result exported (no line 22)
 //   2 k t payload...            script of source k at time t:
-//                               k=0 selector (payload: one integer), k=1..3 targets, k=7 poke
+//                               k=0 selector (payload: one integer), k=1..3 targets, k=4 second (outer) selector, k=7 poke
 //                               TS payload: v ; TSS payload: +key add / -key remove (keys >= 1);
 //                               TSD payload: pairs key value (value -1 = erase)
 // Observation lines (uniform "keyed" rendering; a scalar is the single key 0, a set has values 0)
@@ -316,6 +318,26 @@ namespace
             auto sel  = wire<stdlib::if_then_else>(w, cond, a, b);
             nested_<BelowRef<S>>(w, sel.template as<REF<S>>(), poke);
             wire<RefWatch<S>>(w, sel);
+        }
+        else if (op == 6 || op == 7)
+        {
+            // CHAINED selection: the selected branch of the outer selector is itself a reference output
+            //   inner = if_then_else(c1, a, b);  outer = if_then_else(c2, inner, c)   (op 6)
+            //                                    outer = if_cmp(cmp2, inner, c, c)     (op 7)
+            auto c     = wire<Src<S>>(w, Int{3});
+            wire<Direct<S>>(w, c, Int{3});
+            auto c1    = wire<SrcBool>(w, Int{0});
+            auto inner = wire<stdlib::if_then_else>(w, c1, a, b);
+            if (op == 6)
+            {
+                auto c2 = wire<SrcBool>(w, Int{4});
+                below(wire<stdlib::if_then_else>(w, c2, inner, c));
+            }
+            else
+            {
+                auto c2 = wire<SrcCmp>(w, Int{4});
+                below(wire<stdlib::if_cmp>(w, c2, inner, c, c));
+            }
         }
         else if (op == 4)
         {
